@@ -779,6 +779,41 @@ def shared_executors(tree):
     return sorted(set(out))
 
 
+def dispatch_inside_try(tree):
+    """the statements that hand the child's answer to the caller — `raise <x>.exception`, `return <value>` — of a function that receives
+    from a pipe (`.recv()`), found INSIDE a try statement: there the callee's own exception (which may be an EOFError, an OSError, a
+    ChildProcessError … or derive from one) passes the handlers the parent keeps for ITS OWN failures and can be swallowed or replaced"""
+    out = []
+    for q, fn in _functions(tree):
+        own = list(_own_nodes(fn))
+        if not any(isinstance(n, ast.Call) and isinstance(n.func, ast.Attribute) and n.func.attr == 'recv' for n in own):
+            continue
+
+        def walk(stmts, in_try):
+            for st in stmts:
+                if isinstance(st, (ast.FunctionDef, ast.AsyncFunctionDef, ast.ClassDef)):
+                    continue
+                if in_try and isinstance(st, ast.Raise) and isinstance(st.exc, ast.Attribute) and st.exc.attr == 'exception':
+                    out.append(f'{q}: {ast.unparse(st)[:48]}')
+                if in_try and isinstance(st, ast.Return) and st.value is not None:
+                    out.append(f'{q}: {ast.unparse(st)[:48]}')
+                if isinstance(st, ast.Try):
+                    walk(st.body, True)
+                    walk(st.orelse, True)
+                    for h in st.handlers:
+                        walk(h.body, in_try)        # a handler's body is protected by the try statements AROUND this one only
+                    walk(st.finalbody, in_try)
+                else:
+                    for field in ('body', 'orelse', 'finalbody'):
+                        sub = getattr(st, field, None)
+                        if isinstance(sub, list) and sub and isinstance(sub[0], ast.stmt):
+                            walk(sub, in_try)
+                    for h in getattr(st, 'handlers', []) or []:
+                        walk(h.body, in_try)
+        walk(fn.body, False)
+    return sorted(set(out))
+
+
 def lean_str_list(xs):
     return '[' + ', '.join(lean_str(x) for x in xs) + ']'
 
@@ -816,6 +851,12 @@ def sharedExecutors : List String := {lean_str_list(shared_executors(tree))}
     suspended there other invocations fork their children, which inherit this invocation's write end (the model gives the write end to
     the invocation's own child only: `start` copies `parentTx` to `childTx` of the same invocation) -/
 def awaitsWhileWriteEndOpen : List String := {lean_str_list(awaits_while_tx_open(tree))}
+
+/-- `raise <x>.exception` / `return <value>` of the function that receives from the pipe, placed INSIDE the body (or `else`) of a try
+    statement: the exception the callee raised — which may be an EOFError, an OSError, a ChildProcessError or derive from one — would
+    pass the handlers the parent keeps for its own failures (the model's `raiseIfError` / `ret` end the coroutine at once, whatever the
+    class of the transported exception is) -/
+def dispatchInsideTry : List String := {lean_str_list(dispatch_inside_try(tree))}
 
 end PedVerif.Gen.SubprocModule
 '''
